@@ -809,7 +809,7 @@ func (in *Interp) typeAssert(g *G, fr *Frame, ins *ssa.TypeAssert) {
 	if x.R != nil {
 		iv := x.R.(*IfaceV)
 		if it, isI := ins.AssertedType.Underlying().(*types.Interface); isI {
-			ok = iv.T != errType && (iv.T == keyType || iv.T == ctxType || types.Implements(iv.T, it))
+			ok = iv.T != errType && (iv.T == keyType || iv.T == ctxType || iv.T == hashType || types.Implements(iv.T, it))
 			if iv.T == errType {
 				ok = it.NumMethods() <= 1 // opaque errors implement error only
 			}
